@@ -134,10 +134,11 @@ Print Assumptions C20_K9_ref_names_key.
 (* a PASSED context: explicit ref_prefix argument (stripped) > the context's own ref_prefix (as is) >
    pointer of the effective dialect (dialect argument, else the context's); same order for all_refs;
    the definitions dict of the passed context is the one the build writes into *)
-Theorem C20_K9_passed_context : forall cD (car: option bool) cq defs pl wd (ar: option bool) D p,
+Theorem C20_K9_passed_context : forall cD (car: option bool) cq defs pl wd (ar: option bool) D p pl',
   In cD [DRAFT_2020_12; OPEN_API_3_1] -> In D dialects ->
   let c0 := KNs [("dialect", cD); ("definitions", defs); ("all_refs", opt_bool car); ("ref_prefix", opt_str cq); ("plugins", pl)] in
-  exists c, build_ctx c0 wd (opt_bool ar) D (opt_str p) (KTuple []) = Ok c
+  exists c, build_ctx c0 wd (opt_bool ar) D (opt_str p) pl' = Ok c
+    /\ k_getattr2 c (KStr "plugins") = Ok (if k_truthy pl' then pl' else pl)
     /\ k_getattr2 c (KStr "ref_prefix") =
        Ok (KStr (match p with
                  | Some p' => rstrip_slash p'
@@ -246,6 +247,23 @@ Theorem C20_override_noop : forall t, resolve_ty [] [] t = t.
 Proof. exact resolve_ty_noop. Qed.
 Print Assumptions C20_override_noop.
 
+(* /repo fcaa28c: a strategy registered under the ORIGIN class applies to every List[..] / Dict[..] position (the lookup
+   keys of the schema are those of the serializer: the type, then its origin); other containers are not touched by it *)
+Theorem C20_override_origin_key : forall dial conf a o,
+  first_ser [lookup "list" dial; lookup "list" conf] = Some o -> apply_ov (Some o) (TList a) = None \/
+  (forall t', apply_ov (Some o) (TList a) = Some t' -> resolve_ty dial conf (TList a) = t').
+Proof.
+  intros dial conf a o H. destruct (apply_ov (Some o) (TList a)) as [t'|] eqn:E; [right|left; reflexivity].
+  intros t'' Ht; inversion Ht; subst. cbn [resolve_ty table_ov tykey okey]. rewrite H, E. reflexivity.
+Qed.
+Print Assumptions C20_override_origin_key.
+Example C20_origin_key_nonvacuous :
+  resolve_ty [("list", ORet (Some TStr))] [] (TDict (TList TInt)) = TDict TStr /\
+  resolve_ty [] [("dict", ORet None)] (TTuple [TMap TInt TStr; TDict TBool; TSet TInt]) = TTuple [TAny; TAny; TSet TInt] /\
+  resolve_ty [("list", ODeser)] [("list", ORet (Some TBool)); ("int", ORet (Some TStr))] (TList TInt) = TBool /\
+  resolve_ty [("list", OPass)] [("list", ORet (Some TBool)); ("int", ORet (Some TStr))] (TList TInt) = TList TStr.
+Proof. repeat split; reflexivity. Qed.
+
 (* a type whose third-party classes are all covered by serializing strategies with supported replacements is supported *)
 Theorem C20_override_covered : forall dial conf t, covered dial conf t = true -> ty_ok (resolve_ty dial conf t) = true.
 Proof. exact covered_ok. Qed.
@@ -266,3 +284,58 @@ Example C20_override_nonvacuous :
   (exists s st, schema_fuel (digest_tab EP) (mkcfg false "#") 2 (TClass "Inv") [] = SOk (s, st) /\ meta_ok (render s) = true) /\
   schema_fuel (digest_tab EP) (mkcfg false "#") 2 (TClass "Bare") [] = SErr.
 Proof. split; [reflexivity|]. split; [eexists _, _; split; [vm_compute; reflexivity|vm_compute; reflexivity]|reflexivity]. Qed.
+
+(* ---- the default VALUE of a property: the reference serialization (TyModel.ref_enc, the lead's model of to_dict)
+        of the value under the field's type, through the embedding sty_of of this grammar; None is always null ---- *)
+From Verif Require Core TyModel.
+From Verif Require Import SchemaDefault.
+
+Theorem C20_default_value_is_ref_enc : forall tab t v,
+  render_default tab t v =
+  match v with
+  | Core.VNone => Some JNull
+  | _ => match sty_of t with
+         | Some st => match TyModel.ref_enc [] (prims_of tab) v st with Core.Ok w => js_of_pv w | Core.Exn _ => None end
+         | None => None end
+  end.
+Proof. intros tab t v. destruct v; reflexivity. Qed.
+Print Assumptions C20_default_value_is_ref_enc.
+
+Theorem C20_default_prerendered : forall tab vals c r v,
+  find_val c (r_name r) vals = Some v ->
+  r_def (prerender_field tab vals c r) =
+    match render_default tab (r_ty r) v with Some j => RDefault j | None => RFactory end /\
+  r_ty (prerender_field tab vals c r) = r_ty r /\ r_name (prerender_field tab vals c r) = r_name r /\
+  r_init (prerender_field tab vals c r) = r_init r.
+Proof. exact prerender_field_spec. Qed.
+Print Assumptions C20_default_prerendered.
+
+Theorem C20_default_scalars : forall tab,
+  (forall z, render_default tab TInt (Core.VInt z) = Some (JInt z)) /\
+  (forall b, render_default tab TBool (Core.VBool b) = Some (JBool b)) /\
+  (forall s, render_default tab TStr (Core.VStr s) = Some (JStr s)) /\
+  (forall t, render_default tab t Core.VNone = Some JNull) /\
+  (forall k w fmt pat tp, render_default tab (TLeaf tp fmt pat) (Core.VLeaf k w) = Some (JStr w)).
+Proof. exact render_scalar. Qed.
+Print Assumptions C20_default_scalars.
+
+Example C20_default_nonvacuous :
+  let ER := [("D", mkrcls [] None None [] []
+                 [mkrfld "t" None None (TTuple [TInt; TEnum false [JStr "a"; JInt 2]]) false true RFactory None None None;
+                  mkrfld "o" None None (TClass "D") false true RFactory None None None])] in
+  let vals := [("D", ("t", Core.VTuple [Core.VInt 0; Core.VEnum "enum" "A"])); ("D", ("o", Core.VNone))] in
+  match lookup "D" (digest_tab (prerender [("A", Core.VStr "a")] vals ER)) with
+  | Some fs => map f_default fs | None => [] end = [Some (JArr [JInt 0; JStr "a"]); Some JNull].
+Proof. reflexivity. Qed.
+
+(* ---- Annotated constraints, mappings with non-str keys (Counter, ChainMap spellings), in one run ---- *)
+Example C20_annotated_map_nonvacuous :
+  let t := TTuple [TAnn [ANum AMinimum 0; ANum AMaxLength 3; APattern "^a*$"] TInt;
+                   TAnn [ANum AMinLength 0; APattern "^a*$"; ANum AMaximum 9] TStr;
+                   TAnn [ANum AMaxItems 3; AUnique false] (TSet TInt);
+                   TAnn [ANum AMinProps 1] (TMap (TLeaf "string" (Some "date") None) TInt);
+                   TList (TMap TInt TAny)] in
+  (exists s st, schema_fuel [] (mkcfg false "#") 0 t [] = SOk (s, st) /\ meta_ok (render s) = true /\ norm (render s) = NOk (render s)
+     /\ canon (render s) = "{4:types5:array11:prefixItems[{4:types7:integer7:minimumi0;}{4:types6:string9:minLengthi0;7:patterns4:^a*$}{4:types5:array5:items{4:types7:integer}8:maxItemsi3;11:uniqueItemsf}{4:types6:object20:additionalProperties{4:types7:integer}13:propertyNames{4:types6:string6:formats4:date}13:minPropertiesi1;}{4:types5:array5:items{4:types6:object13:propertyNames{4:types7:integer}}}]8:maxItemsi5;8:minItemsi5;}") /\
+  schema_fuel [] (mkcfg false "#") 0 (TAnn [ANum AMinItems (-1)] (TList TInt)) [] = SErr.
+Proof. split; [eexists _, _; split; [vm_compute; reflexivity|]; repeat split; vm_compute; reflexivity|reflexivity]. Qed.
